@@ -248,6 +248,11 @@ func c15(args []string) int {
 		// checkpoint barrier waits for the application's open transaction)
 		{Name: "seeded/keep-l0/commit-inside-checkpoint-pass", Cfg: func() scn.Config { c := keep; c.BusyTimeoutMS = 80; return c }(), Alphabet: strings.Fields("LCW:PASSIVE:early LCW:RESTART:early LCW:PASSIVE W1 SW TXB"), Depth: d(2, 3),
 			Seeds: [][]string{strings.Fields("W1 SW W1 TXB"), strings.Fields("W1 SW TXB")}},
+		// a snapshot taken by a freshly restarted litestream BEFORE it has copied the application's newest commit (its
+		// first sync found nothing to copy; the WAL file still carries a stale tail from before a checkpoint): the
+		// snapshot must end at the replicated position, not at whatever the WAL file holds
+		{Name: "seeded/keep-l0/restart-idle-sync-then-snapshot", Cfg: keep, Alphabet: strings.Fields("W1 U S FSNAP SNAP SW"), Depth: d(3, 4),
+			Seeds: [][]string{strings.Fields("W3 SW LC:PASSIVE W1 SW KILL NEW S"), strings.Fields("W3 W3 SW CK:PASSIVE W1 SW CL START S"), strings.Fields("W3 SW LC:PASSIVE W1 SW KILL NEW")}},
 		{Name: "exact/keep-l0", Cfg: keep, Alphabet: a, Depth: d(4, 6)},
 		{Name: "seeded/keep-l0", Cfg: keep, Alphabet: a, Depth: d(2, 4), Seeds: seeds},
 		{Name: "seeded/l0-pruned-by-compaction", Cfg: prune, Alphabet: a, Depth: d(2, 4), Seeds: seeds},
